@@ -25,8 +25,13 @@ RULES = {
     "the `path` property is computed from (base directory, location) also resets the data fields filled by the checked loader "
     "(`raw`, `_array`) - otherwise numpy()/tobytes() keep returning the bytes mapped from the old location, which were never "
     "checked against the new base directory",
+    "R6": "only the tensor reads its file: outside the methods of ExternalTensor no function of the package hands `<external tensor>.path` "
+    "(the joined, unchecked path) to a primitive that reads a file - open, np.fromfile, np.memmap, np.load, mmap.mmap, os.open, "
+    "shutil.copy* - or to anything but a path comparison: the containment check lives in the tensor's own loader, so a fast path "
+    "that reads the bytes itself (`np.fromfile(tensor.path, …)` when converting external tensors to memory) returns the contents of a "
+    "file outside the model directory",
 }
-FLOORS = {"R1": 6, "R2": 6, "R3": 1, "R4": 5, "R5": 1}
+FLOORS = {"R1": 6, "R2": 6, "R3": 1, "R4": 5, "R5": 1, "R6": 1}
 EXPLANATION = (
     "Dominator queries on ExternalTensor's methods for every file-system read primitive, a who-may-fill check "
     "on the mmap/array fields, a small abstract interpretation of _check_path_containment over path-string "
@@ -647,7 +652,60 @@ def rule_r5(ctx):
     ctx.require(n >= 1, "no method of ExternalTensor stores an input of its path")
 
 
+_READ_PRIMS = ("open", "io.open", "np.fromfile", "numpy.fromfile", "np.memmap", "numpy.memmap", "np.load", "numpy.load", "mmap.mmap", "os.open",
+               "shutil.copy", "shutil.copy2", "shutil.copyfile", "shutil.copyfileobj", "os.sendfile", "os.copy_file_range", "pathlib.Path")
+_R6_EXAMPLE = "def f(tensor):\n    return np.fromfile(tensor.path, dtype=np.uint8)\n"
+
+
+def _path_reads(fn_node):
+    """[(call, argument)] - file-reading primitives given an expression that contains `<x>.path`."""
+    out = []
+    for c in ast.walk(fn_node):
+        if isinstance(c, ast.Call) and (dotted_of(c.func) or "") in _READ_PRIMS:
+            for a in list(c.args) + [k.value for k in c.keywords]:
+                if any(isinstance(x, ast.Attribute) and x.attr == "path" for x in ast.walk(a)):
+                    out.append((c, a))
+    return out
+
+
+def rule_r6(ctx):
+    ex = ast.parse(_R6_EXAMPLE).body[0]
+    ctx.require(bool(_path_reads(ex)), "R6: the built-in positive example is not recognised")
+    n = 0
+    et = ctx.repo.cls(ET)
+    for m in ctx.repo.pkg_modules():
+        if m.name.endswith("_test"):
+            continue
+        for f in m.all_funcs:
+            if isinstance(f.node, ast.Lambda) or f.owner_class is et:
+                continue
+            mentions = [x for x in own_nodes(f.node) if isinstance(x, ast.Attribute) and x.attr == "path" and isinstance(x.ctx, ast.Load)]
+            ext = []
+            for x in mentions:
+                try:
+                    cls = ctx.typer.recv_classes(f, x.value)
+                except Exception:
+                    cls = ()
+                if any("Tensor" in k.name for k in cls) or (not cls and isinstance(x.value, ast.Name) and "tensor" in x.value.id.lower()):
+                    ext.append(x)
+            n += len(ext)
+            if not ext:
+                continue
+            for c, a in _path_reads(f.node):
+                if any(x in ext for x in ast.walk(a) if isinstance(x, ast.Attribute)):
+                    ctx.check("R6", f"{f.local}: `{norm(c)[:50]}` does not read an external tensor's file itself", False, f, c,
+                              f"`{norm(c)[:80]}` opens the data file of an external tensor through its `path` without going through the tensor's own loader: the containment "
+                              "check is skipped, so a location that leaves the model directory (.., an absolute path, a link) is read and its bytes end up in the model",
+                              how="arguments of file-reading primitives outside ExternalTensor that contain `<external tensor>.path`",
+                              construct=f"{f.local} reads <external tensor>.path itself")
+    ctx.ob("R6", f"{n} reads of `<external tensor>.path` outside the class: none reaches a file-reading primitive", True, nontrivial=False)
+    for _ in range(n):
+        ctx.counts["R6"] = ctx.counts.get("R6", 0) + 1
+    ctx.require(n >= 1, f"only {n} uses of `<external tensor>.path` outside the class found (the writer compares it with its destination)")
+
+
 def run(ctx):
+    rule_r6(ctx)
     rule_r5(ctx)
     rule_r1(ctx)
     rule_r2(ctx)
